@@ -255,6 +255,8 @@ var c20Hostile = []string{
 	`"CN=#"`, `"CN=#0"`, `"CN=#13"`, `"O=#1303616263, CN=#"`, `"=x"`, `"CN=a=b"`, `"CN=#zz"`,
 	// OID arcs just beyond what a signed / an unsigned 64-bit number holds
 	`"1.2.9223372036854775808"`, `"1.2.18446744073709551615"`, `"1.2.18446744073709551616.3"`, `"2.9223372036854775808"`,
+	// well-formed raw values of unusual size
+	`"!binary:` + strings.Repeat("QUJD", 500) + `"`, `"!binary:` + strings.Repeat("QUJD", 30000) + `"`, `"!binary:` + strings.Repeat("QUJD", 341) + `QQ=="`,
 }
 
 // OID texts that pass the schema but have an arc no implementation number holds: an error, never a silent drop
